@@ -3,7 +3,7 @@ import ast
 from leanlit import *
 
 TARGET = 'Expo'
-SOURCES = ['prometheus_client/exposition.py', 'prometheus_client/openmetrics/exposition.py']
+SOURCES = ['prometheus_client/exposition.py', 'prometheus_client/openmetrics/exposition.py', 'prometheus_client/samples.py']
 
 
 def replace_chain(node):
@@ -24,7 +24,7 @@ def pairs(chain):
 def generate(repo):
     out = header(TARGET, SOURCES)
     ok, why = True, ''
-    v = dict(escapeChain=[], helpChain=[], exemplarChain=[], munge=[], trailing=[], helpChainTrailing=[], exemplarNameEscaped=False)
+    v = dict(escapeChain=[], helpChain=[], exemplarChain=[], munge=[], trailing=[], helpChainTrailing=[], exemplarNameEscaped=False, stampAbsNsec=False)
     try:
         text = parse(repo, SOURCES[0])
         om = parse(repo, SOURCES[1])
@@ -94,6 +94,15 @@ def generate(repo):
                 munge.append((typ, suffix, newtyp))
         if not munge: raise Fail('type munging chain not found')
         v['munge'] = munge
+        # samples.Timestamp.__str__: f"{self.sec}.{self.nsec:09d}" or with abs(self.nsec)
+        smp = parse(repo, SOURCES[2])
+        st = find_func(smp, '__str__', cls='Timestamp')
+        rets = [n for n in st.body if isinstance(n, ast.Return)]
+        if len(rets) != 1: raise Fail('Timestamp.__str__ shape')
+        src = ast.unparse(rets[0].value)
+        if src == "f'{self.sec}.{self.nsec:09d}'": v['stampAbsNsec'] = False
+        elif src == "f'{self.sec}.{abs(self.nsec):09d}'": v['stampAbsNsec'] = True
+        else: raise Fail('Timestamp.__str__ returns %s' % src)
         tr = None
         for n in ast.walk(t):
             if isinstance(n, ast.For) and ast.unparse(n.target) == 'suffix' and isinstance(n.iter, ast.List):
@@ -111,6 +120,8 @@ def generate(repo):
     out += 'def exemplarChain : List (Char × List Char) := %s\n' % pairs(v['exemplarChain'])
     out += '/-- is the exemplar label name passed through `escape_label_name` (true) or written raw (false) -/\n'
     out += 'def exemplarNameEscaped : Bool := %s\n' % ('true' if v['exemplarNameEscaped'] else 'false')
+    out += '/-- `Timestamp.__str__` formats abs(nsec) (true) or the signed nsec (false: a negative Timestamp gets a second minus sign) -/\n'
+    out += 'def stampAbsNsec : Bool := %s\n' % ('true' if v['stampAbsNsec'] else 'false')
     out += '/-- HELP text in the text exposition (family line / trailing-gauge line) -/\n'
     out += 'def helpChain : List (Char × List Char) := %s\n' % pairs(v['helpChain'])
     out += 'def helpChainTrailing : List (Char × List Char) := %s\n' % pairs(v['helpChainTrailing'])
